@@ -6,6 +6,39 @@ C30 — Produced blocks respect size, count and group limits.  Property theorems
 -/
 namespace C30
 
+/-- **limit(height)**: the per-height limit is the value of the latest fork (among the fork sections
+that set `maxTxNumber`, with distinct fork heights) at or below the height, and the base value
+before the first of them. -/
+theorem limit_is_latest_fork (base : Int) (forks : List (Int × Int)) (height : Int)
+    (hn : (forks.map (·.1)).Nodup) :
+    ((∀ g ∈ forks, ¬ g.1 ≤ height) → limitAt base forks height = base) ∧
+    (∀ f ∈ forks, f.1 ≤ height → (∀ g ∈ forks, g.1 ≤ height → g.1 ≤ f.1) →
+      limitAt base forks height = f.2) := by
+  obtain ⟨s1, s2, _, s4⟩ := pickFork_spec height forks none (by intro b e; cases e)
+  constructor
+  · intro hnone
+    unfold limitAt
+    cases hp : pickFork height none forks with
+    | none => rfl
+    | some b =>
+      obtain ⟨h1, h2⟩ := s1 b hp
+      rcases h2 with h2 | h2
+      · cases h2
+      · exact absurd h1 (hnone b h2)
+  · intro f hf hfh hmax
+    unfold limitAt
+    obtain ⟨b, hb, hle⟩ := s2 f hf hfh
+    rw [hb]
+    obtain ⟨h1, h2⟩ := s1 b hb
+    rcases h2 with h2 | h2
+    · cases h2
+    · have := hmax b h2 h1
+      have e : b.1 = f.1 := by omega
+      rw [fst_unique hn h2 hf e]
+
+example : limitAt 12 [(50, 7), (80, 20)] 49 = 12 ∧ limitAt 12 [(50, 7), (80, 20)] 50 = 7 ∧
+    limitAt 12 [(50, 7), (80, 20)] 79 = 7 ∧ limitAt 12 [(50, 7), (80, 20)] 80 = 20 := by decide
+
 /-- **count**: the block never holds more transactions than the limit of its height (when the
 prefilled block respected it), and nothing is added to a block that is already over the limit. -/
 theorem count_le_max (base : Int) (forks : List (Int × Int)) (blFork height : Int)
